@@ -22,9 +22,24 @@ func (ex *Exec) runBody(fr *Frame, st0 *State, pc0 Term) {
 	ex.assignLoopOrdinals(fn, ci)
 	fr.loops = ci.loops
 	if fr.isTop && ex.contract != nil {
+		matched := map[int]bool{}
 		for _, li := range ci.loops {
 			if ls, ok := ex.contract.Loops[li.ord]; ok {
 				li.spec = ls
+				matched[li.ord] = true
+			}
+		}
+		// a loop clause whose loop does not exist (any more) is not silently
+		// dropped: the code under contract has changed shape
+		var ords []int
+		for ord := range ex.contract.Loops {
+			ords = append(ords, ord)
+		}
+		sort.Ints(ords)
+		for _, ord := range ords {
+			if !matched[ord] {
+				fr.blockPC = tTrue
+				ex.oblige(fr, fmt.Sprintf("loop%d.exists", ord), "the contract names a loop the function does not have", tTrue, tFalse, fn.Pos())
 			}
 		}
 	}
@@ -143,6 +158,32 @@ func (ex *Exec) runBody(fr *Frame, st0 *State, pc0 Term) {
 			for _, s := range b.Succs {
 				if ci.backEdge[[2]int{b.Index, s.Index}] {
 					ex.backEdge(fr, ci.loops[s], b, s, st, And(fr.blockPC, edgeCond(b, s)))
+				}
+			}
+			// nobreak loops: a block that is dominated by the loop's body entry but
+			// is not part of the loop is on a path that leaves an iteration early
+			// (break, return, goto): it must be unreachable
+			for _, lp := range ci.loops {
+				if lp.spec == nil || !lp.spec.NoBreak || lp.blocks[b] {
+					continue
+				}
+				var entry *ssa.BasicBlock
+				for _, s := range lp.header.Succs {
+					if lp.blocks[s] && s != lp.header {
+						entry = s
+					}
+				}
+				if entry == nil || !entry.Dominates(b) {
+					continue
+				}
+				fromLoop := false
+				for _, p := range b.Preds {
+					if lp.blocks[p] {
+						fromLoop = true
+					}
+				}
+				if fromLoop {
+					ex.oblige(fr, fmt.Sprintf("loop%d.nobreak", lp.ord), "early-exit", fr.blockPC, tFalse, b.Instrs[0].Pos())
 				}
 			}
 		}
@@ -474,8 +515,37 @@ func (ex *Exec) ghostAssignedIn(li *loopInfo, g string) bool {
 		return false
 	}
 	for _, oc := range ex.contract.OnCalls {
+		assigns := false
 		for _, a := range oc.Assigns {
 			if a.Name == g {
+				assigns = true
+			}
+		}
+		if !assigns {
+			continue
+		}
+		// only rules whose callee is called inside the loop can change g there
+		for b := range li.blocks {
+			for _, in := range b.Instrs {
+				ci, ok := in.(ssa.CallInstruction)
+				if !ok {
+					continue
+				}
+				callee := ci.Common().StaticCallee()
+				if callee == nil {
+					continue
+				}
+				key := funcKey(callee)
+				short := key
+				if i := strings.Index(key, "."); i >= 0 {
+					short = key[i+1:]
+				}
+				if oc.Callee != key && oc.Callee != short {
+					continue
+				}
+				if oc.Ord != 0 && ex.callSiteOrd(b.Parent(), ci) != oc.Ord {
+					continue
+				}
 				return true
 			}
 		}
@@ -555,6 +625,18 @@ func (ex *Exec) backEdge(fr *Frame, li *loopInfo, from, header *ssa.BasicBlock, 
 		env := ex.loopEnv(fr, st)
 		g := ex.evalBool(inv, env)
 		ex.oblige(fr, fmt.Sprintf("loop%d.preserve", li.ord), clauseName(inv, i), pc, g, from.Instrs[len(from.Instrs)-1].Pos())
+	}
+	for i, it := range li.spec.Iters {
+		env := ex.loopEnv(fr, st)
+		env.old = li.headSt
+		env.oldVars = map[string]TV{}
+		for phi, hv := range saved {
+			if phi.Comment != "" && hv != nil {
+				env.oldVars[phi.Comment] = TV{hv, phi.Type()}
+			}
+		}
+		g := ex.evalBool(it, env)
+		ex.oblige(fr, fmt.Sprintf("loop%d.iter", li.ord), clauseName(it, i), pc, g, from.Instrs[len(from.Instrs)-1].Pos())
 	}
 	if li.hasMeasure {
 		env := ex.loopEnv(fr, st)
